@@ -43,9 +43,16 @@ CASES = [
 ]
 
 
-def script_run(text, pred):
-  """What `logica.py <file> run <pred>` does on sqlite: statements through one fresh connection."""
+def script_run(text, pred, via_cli=False):
+  """What `logica.py <file> run <pred>` does on sqlite: statements through one fresh connection; with
+  via_cli the real command line tool is run in a subprocess (`logica.py <file> run_to_csv <pred>`)."""
   import csv, io
+  if via_cli:
+    from vlib import cli
+    rc, out, err = cli.run(text, 'run_to_csv', pred)
+    if rc != 0:
+      raise RuntimeError('logica.py exited with %d: %s' % (rc, (err or out)[-300:]))
+    return [tuple(r) for r in cli.csv_rows(out)], []
   _, _, sqlite3_logica = R.mods()
   prog = R.compile_program(text)
   pre, main = R.statements_for(prog, pred)
@@ -87,7 +94,7 @@ def run_case(c, base, tier):
   # sequences of runs: every predicate, then all again in reverse order
   seq = preds + list(reversed(preds)) + (preds if tier == 'thorough' else [])
   for k, p in enumerate(seq):
-    rows, pre = script_run(text, p)
+    rows, pre = script_run(text, p, via_cli=(k % 2 == 1))      # every second run through the command line tool
     n += 1
     if not same(rows, c['preds'][p]):
       return n, 'run #%d of %s returned %r, the program says %r' % (k + 1, p, sorted(rows), sorted(c['preds'][p]))
@@ -103,21 +110,28 @@ def run_case(c, base, tier):
   return n, None
 
 
+def _case_job(args):
+  i, tier = args
+  base = tempfile.mkdtemp(prefix='verif_c17_')
+  try:
+    try:
+      return run_case(CASES[i], base, tier)
+    except Exception as e:
+      return 1, 'run failed: %s: %s' % (type(e).__name__, str(e)[:300])
+  finally:
+    shutil.rmtree(base, ignore_errors=True)
+
+
 def sequences(tier):
   out = {'name': 'C17-run-sequences', 'evaluations': 0, 'distinct_nontrivial': 0, 'violations': [], 'samples': [],
          'rule': 'programs with one or two grounded intermediates, a flag-parameterised table name, a user-attached '
                  'logica_test file and a table shared by two grounded readers; sequences of runs of their predicates '
-                 '(each, then all again in reverse order) against one persistent SQLite file: rows and table contents '
+                 '(each, then all again in reverse order; every second run through the command line tool logica.py in a subprocess) against one persistent SQLite file: rows and table contents '
                  'equal the spec after every run; asking for the grounded predicate itself writes nothing'}
-  for c in CASES:
-    base = tempfile.mkdtemp(prefix='verif_c17_')
-    try:
-      try:
-        n, msg = run_case(c, base, tier)
-      except Exception as e:
-        n, msg = 1, 'run failed: %s: %s' % (type(e).__name__, str(e)[:300])
-    finally:
-      shutil.rmtree(base, ignore_errors=True)
+  import multiprocessing
+  with multiprocessing.get_context('fork').Pool(len(CASES)) as pool:
+    results = pool.map(_case_job, [(i, tier) for i in range(len(CASES))])
+  for c, (n, msg) in zip(CASES, results):
     out['evaluations'] += n
     out['distinct_nontrivial'] += n
     if msg:
